@@ -26,6 +26,8 @@ COLOURS = [
     ("#000000ff", (0, 0, 0, 255)),
     ("", None), ("#", None), ("#12", None), ("#1234", None), ("#12345", None), ("#1234567890", None), ("zzzzzz", None), ("#gg0000", None),
     ("#é00000", None), ("#0é0000", None), ("##ff0000", None), ("€€", None), ("# ff0000", None),
+    # malformed, but with three or four well-formed hex pairs somewhere inside
+    ("#zzb2c3d4", None), (" #a1b2c3", None), ("0xa1b2c3", None), ("#a1b2c3zz", None), ("#a1zzb2c3d4", None),
 ]
 POSITIONS = [((), None), ((1.5,), None), ((3.0, 4.5), (3.0, 4.5)), ((1.0, 2.0, 3.0), None), ((0.0, 0.0), (0.0, 0.0))]
 IMAGES = ["", "data:image/png;base64,AAAA", "a\"b<c&d'e>", "é.png"]
@@ -186,7 +188,9 @@ def _effective(prog):
             if rgba == "missing":
                 rgba = _parse_plain(val)
             if rgba is None:
-                eff[name] = ("unspecified",)
+                # a malformed colour is not a setting: the value in force before the call (an earlier well-formed one, else the
+                # native default) stays in force
+                pass
             else:
                 eff[name] = ("set", rgba)
         elif name == "image_position":
